@@ -595,7 +595,8 @@ def make_old_version(pr):
         target = data if isinstance(data, dict) else next(
             (x for x in (data if isinstance(data, (list, tuple)) else ()) if isinstance(x, dict) and "internal_version" in x), None)
         if target is not None and "internal_version" in target:
-            target["internal_version"] = 0
+            # a file of another format version - older for odd contents, NEWER for even ones - holds other data
+            target["internal_version"] = 0 if c % 2 else int(target["internal_version"]) + 1
             pr.old[c] = pickle.dumps(data)
         else:
             pr.old[c] = pickle.dumps({"internal_version": 0})
